@@ -204,6 +204,12 @@ class C20(Check):
             (('pred', 'geq', ('alwt', 0, 2, ('var', 0)), ('const', 1)), [[2, 0, 2], [0, 0, 0], [0, 0, 0]]),
             (('pred', 'leq', ('a2', 'sub', ('var', 0), ('alwt', 0, 2, ('var', 0))), ('const', 1)), [[5, 1, 3], [0, 0, 0], [0, 0, 0]]),
             (('pred', 'lt', ('var', 1), ('hist', ('var', 0))), [[1, 1, 1], [3, 0, 0], [0, 0, 0]]),
+            # two needed windows of one variable that overlap / are nested (union of interval lists), nested bounded always in a satisfied context
+            (('or', ('evt', 0, 5, ('pred', 'geq', ('var', 0), ('const', 3))), ('evt', 2, 3, ('pred', 'geq', ('var', 0), ('const', 1)))), [[0] * 8, [0] * 8, [0] * 8]),
+            (('implies', ('alwt', 0, 5, ('pred', 'lt', ('var', 0), ('const', 5))), ('evt', 2, 3, ('pred', 'gt', ('var', 0), ('const', 2)))), [[1, 1, 1, 0, 1, 1, 0, 0], [0] * 8, [0] * 8]),
+            (('not', ('alwt', 0, 2, ('alwt', 1, 2, X0))), [[1] * 6, [0] * 6, [0] * 6]),
+            (('not', ('histt', 0, 1, ('alwt', 1, 3, X0))), [[1] * 7, [0] * 7, [0] * 7]),
+            (('and', ('alwt', 1, 4, X0), ('alwt', 2, 3, ('pred', 'geq', ('var', 0), ('const', 2)))), [[3, 3, 1, 3, -1, 3, 3], [0] * 7, [0] * 7]),
             # a variable that occurs twice
             (('and', ('var', 0), ('a2', 'mul', ('var', 0), ('var', 0))), [[-2], [0], [0]]),
         ]
